@@ -29,22 +29,44 @@ CLAIM = dict(
           "whole fill or, if in that fill's missed set, ignores it), for ALL application maps, images, buffer sizes, "
           "machines and ALL per-fill missed sets: every fill the controller sends is well formed (announced block count = "
           "blocks sent, numbered 0,1,2.., each block <= buffer, concatenation = image, one even id in 2..252, FFCS between "
-          "FFS and FFE in the order compress returned); a well-formed fill loads exactly the selected cores of the chips "
+          "FFS and the first data packet and STRICTLY INCREASING - derived in Lean from C12's theorems for C12's model of "
+          "compress_flood_fill_regions, fill_wellformed_c12); a well-formed fill loads exactly the selected cores of the chips "
           "that took part; under PreClean (no core waiting under this app id, no requested core waiting) a normal return "
           "means exactly the requested cores hold their binary under the app id, waiting or started as asked, and every "
           "other core is untouched, in both verification modes; SpiNNakerLoadingError names exactly the requested cores "
-          "that are not loaded; at most n_tries + 1 attempts, each re-sending exactly the still-unloaded map. Without "
-          "PreClean the counterexamples (stale waiters mask missing cores in count mode / a waiting requested core is "
-          "accepted by the read-back) are proved on the model and replayed on the code on every run (known findings). "
+          "that are not loaded; at most n_tries + 1 attempts, each re-sending exactly the still-unloaded map; these hold "
+          "with the region-compression contract as a hypothesis (CompressOK) and, with no such hypothesis, for the "
+          "controller whose compress is C12's model (compress_contract_discharged, *_c12). Exactly one start signal is "
+          "sent, as the last request, on a normal return with wait=False and no signal packet otherwise "
+          "(start_signal_once; no hypothesis besides app id < 256). Without PreClean: a normal return is unsound IFF the "
+          "Lean predicate staleMasks holds of the pre-state, the request and the violating cores (every violating core "
+          "was itself waiting before the call, or - count mode - the stale waiters on other cores are as many as the "
+          "violating cores that do not count themselves): load_sound_iff_preclean_needed; the error omits an unloaded "
+          "core IFF staleHides (load_error_iff_preclean_needed); the two counterexamples are proved instances and are "
+          "replayed on the code on every run (known findings), and a post-condition violation is filed under a known "
+          "finding only when the Lean predicate holds on the case. send_signal (argument packing for every member of "
+          "AppSignal, ValueError otherwise, KeyError impossible), count_cores_in_state (packing, reply decoding, sum "
+          "over an iterable, ValueError after the valid prefix) and wait_for_cores_to_reach_state (returns the count of "
+          "the first poll that reached the count or passed the deadline; terminates within timeout+1 polls under "
+          "clock progress; never ends without timeout if the count is never reached) are modelled and proved "
+          "(Props/C09Sig.lean) with the enumerations and signal-type tables regenerated from consts.py. "
           "Tied to the code by exact request/reply trace correspondence through the real SCPConnection against a "
-          "simulated machine that is itself replayed through the Lean machine specification, and by the Lean oracles "
-          "evaluated on the implementation's packets and on the machine's core states."),
+          "simulated machine that is itself replayed through the Lean machine specification (load: with the "
+          "implementation's region pairs AND with C12's compress model; signals/count/wait: scripted integer clock and "
+          "machine evolution during the sleeps), and by the Lean oracles evaluated on the implementation's packets, "
+          "requests and core states."),
     design="3/C09",
-    note=("Region selection (compress_flood_fill_regions) is property C12: here its contract is a hypothesis (CompressOK) "
-          "checked by the Lean predicate regionsOK on every pair the implementation produced. Packet loss inside a fill "
-          "is abstracted to whole-fill misses per chip. Domain: image length and buffer multiples of 4, <= 255 blocks "
-          "(8-bit field of the start packet: beyond it the fill is malformed - known finding ffs-block-count-overflow), "
-          "requested chips exist, cores < 18, binaries target disjoint cores. SCP transport reliability is C06."),
+    note=("Proved about the model, validated against the code by correspondence: everything above. Only validated (per "
+          "run, not proved): that the model equals the code (trace correspondence on generated cases); regionsOK on every "
+          "pair the implementation produced (the proof is about C12's model of compress, whose output equals the "
+          "implementation's in every fill compared). Packet loss inside a fill is abstracted to whole-fill misses per "
+          "chip. Domain: image length and buffer multiples of 4, <= 255 blocks (8-bit field of the start packet: beyond "
+          "it the fill is malformed - known finding ffs-block-count-overflow), requested chips exist (coordinates < 256 "
+          "for the _c12 theorems), cores < 18, binaries target disjoint cores, each core listed once (for the count "
+          "clause of staleMasks). wait_for_cores_to_reach_state: the iterable of states must be re-iterable (a generator "
+          "is consumed by the first poll); time is an integer clock supplied by the environment; `while True` is modelled "
+          "with fuel and an explicit out-of-fuel result. The machine specification models only the start signal and the "
+          "count request; for the other signals only the packing is proved/compared. SCP transport reliability is C06."),
     technique="Lean 4 theorems over controller model x machine specification + trace correspondence against a simulated machine + Lean spec oracles")
 
 THEOREMS = ["nnid_range", "fill_wellformed", "fill_loads_exactly", "attempts_bounded",
@@ -59,7 +81,8 @@ THEOREMS = ["nnid_range", "fill_wellformed", "fill_loads_exactly", "attempts_bou
             "signal_types_total", "signal_packing_exact", "start_signal_is_send_signal", "count_packing_exact",
             "count_cores_sum", "count_cores_invalid", "wait_returns_count", "wait_terminates_under_clock_progress",
             # the stale-waiter findings, sharply (Props/C09Stale.lean)
-            "postOk_false_iff", "count_masks", "load_sound_iff_preclean_needed"]
+            "postOk_false_iff", "count_masks", "load_sound_iff_preclean_needed",
+            "postErr_false_iff", "load_error_iff_preclean_needed"]
 
 RULE = ("cases = (machine of 1-40 chips: rectangles at several origins incl. aligned 4x4/8x8 blocks, scattered chips up to "
         "coordinate 255; 1-3 binaries of length around multiples of the buffer (buffer in {4,8,16,64,128,256}); core sets "
@@ -67,7 +90,12 @@ RULE = ("cases = (machine of 1-40 chips: rectangles at several origins incl. ali
         "mode, starting nn-id incl. 125/126; per-fill missed sets none / random / all / alternating / all-then-none; "
         "pre-existing cores: none, other app ids, stale waiters of the same app id on requested and on other cores); "
         "non-trivial = some chip missed a fill and a re-send happened, or the call ended in SpiNNakerLoadingError, or a "
-        "stale waiter was present; distinct = distinct canonical JSON of the case")
+        "stale waiter was present; distinct = distinct canonical JSON of the case; plus signalling cases = (machine of "
+        "1-10 chips with random core states; send_signal with every member of AppSignal by name / member / int and "
+        "invalid names and numbers; count_cores_in_state with one state or a list / tuple / generator of 0-4 states incl. "
+        "invalid ones; wait_for_cores_to_reach_state with target counts around the current count, timeout none or 0-8 "
+        "ticks, clock scripts advancing by one / jumping / stalling, up to 5 evolution steps of the machine during the "
+        "sleeps, fuel 4-9), non-trivial = at least one sleep, a list of states, an error or a delivered signal")
 
 BUFS = [4, 8, 16, 16, 64, 64, 128, 256, 256]
 WAIT, RUN, IDLE = 5, 7, 15
@@ -328,7 +356,8 @@ def gen_case(rng, overflow=False):
             missed[k] = missed[k - k % n_apps]
     # pre-existing cores
     pre = {}
-    pre_mode = rng.choice(["none", "none", "none", "other-app", "stale-other-core", "stale-requested", "mixed"])
+    pre_mode = rng.choice(["none", "none", "none", "other-app", "stale-other-core", "stale-requested", "mixed",
+                           "stale-vs-missed", "stale-vs-missed"])
     all_cores = [(x, y, p) for (x, y) in chips for p in range(18)]
     requested = sorted(used)
 
@@ -347,12 +376,30 @@ def gen_case(rng, overflow=False):
         free = [c for c in all_cores if c not in used]
         for core in rng.sample(free, min(len(free), rng.randrange(1, 4))):
             put(core, WAIT, app_id)
+    force_count = None
+    if pre_mode == "stale-vs-missed":
+        # one chip misses every fill; k stale waiters under the app id on cores that were NOT requested, with k
+        # below / equal to / above the number m of requested cores of that chip: the count shortcut is fooled
+        # only for k == m (known finding); for every other k the call must retry and end in the error
+        with_req = [c for c in chips if any((c[0], c[1], p) in used for p in range(18))]
+        lost = rng.choice(with_req) if with_req else stubborn
+        m = sum(1 for p in range(18) if (lost[0], lost[1], p) in used)
+        k = max(1, rng.choice([m - 2, m - 1, m, m, m + 1, m + 2, m + 3, 2 * m + 1]))
+        free = [c for c in all_cores if c not in used]
+        if rng.random() < 0.5:
+            free = [c for c in free if (c[0], c[1]) != tuple(lost)] or free
+        for core in rng.sample(free, min(len(free), k)):
+            put(core, WAIT, app_id)
+        missed = [[lost] for _ in range(max_fills)]
+        mode = "one-chip"
+        force_count = rng.random() < 0.8
     if pre_mode in ("stale-requested", "mixed") and requested:
         for core in rng.sample(requested, min(len(requested), rng.randrange(1, 3))):
             put(core, WAIT, rng.choice([app_id, app_id, app_id % 255 + 1]))
     return {"chips": chips, "buf": buf, "sdram_sys": 0x60000000 + 4 * rng.randrange(1 << 16),
             "vcpu_base": 0xe5007000 + 128 * rng.randrange(4), "apps": apps, "app_id": app_id,
-            "n_tries": n_tries, "wait": rng.random() < 0.5, "use_count": rng.random() < 0.6,
+            "n_tries": n_tries, "wait": rng.random() < 0.5,
+            "use_count": (rng.random() < 0.6) if force_count is None else force_count,
             "nn": rng.choice([0, 0, 1, 57, 124, 125, 126]), "missed": missed,
             "pre": [pre[k] for k in sorted(pre)], "missed_mode": mode, "pre_mode": pre_mode}
 
@@ -364,6 +411,18 @@ def stale_count_case():
             "app_id": 30, "n_tries": 2, "wait": True, "use_count": True, "nn": 0,
             "missed": [[[1, 0]], [[1, 0]], [[1, 0]]], "pre": [[0, 0, 5, WAIT, 30, [9, 9, 9, 9]]],
             "missed_mode": "finding", "pre_mode": "finding"}
+
+
+def stale_more_case(k_stale):
+    """count mode, chip (1, 0) with 2 requested cores misses every fill, k stale waiters on other cores:
+    only k == 2 fools the count (known finding); for any other k the call must end in the error naming
+    exactly the two cores of (1, 0) - a `>=` / `<=` in the count comparison returns normally instead"""
+    return {"chips": [[0, 0], [1, 0]], "buf": 16, "sdram_sys": 0x60000000, "vcpu_base": 0xe5007000,
+            "apps": [{"name": 0, "image": list(range(16)), "targets": [[0, 0, [1]], [1, 0, [1, 2]]]}],
+            "app_id": 30, "n_tries": 1, "wait": True, "use_count": True, "nn": 0,
+            "missed": [[[1, 0]], [[1, 0]]],
+            "pre": [[0, 0, 5 + i, WAIT, 30, [9, 9, 9, 9]] for i in range(k_stale)],
+            "missed_mode": "one-chip", "pre_mode": "stale-vs-missed"}
 
 
 def stale_readback_case():
@@ -1023,10 +1082,15 @@ def run(ctx):
         "image length and buffer size multiples of 4, at most 255 blocks per binary (beyond: known finding)",
         "requested chips are chips of the machine, cores < 18, binaries target disjoint cores",
         "PreClean for the soundness/exactness theorems: no core waits under the app id, no requested core waits",
-        "compress_flood_fill_regions meets its contract (C12); checked per call by the Lean predicate regionsOK",
+        "compress_flood_fill_regions meets its contract (C12): proved for C12's model (compress_contract_discharged), "
+        "checked per call on the implementation's pairs by the Lean predicate regionsOK; the controller model with C12's "
+        "compress must reproduce the implementation's trace",
+        "each requested core is listed once (dict / set semantics of the application map) for the count clause of staleMasks",
+        "wait_for_cores_to_reach_state: integer clock and machine evolution are environment inputs; iterable of states re-iterable",
         "SCP commands themselves are delivered (C06); signals (count, start) are reliable"]
     try:
-        cases = [stale_count_case(), stale_readback_case(), overflow_case()]
+        cases = [stale_count_case(), stale_readback_case(), overflow_case(),
+                 stale_more_case(1), stale_more_case(2), stale_more_case(3), stale_more_case(5)]
         n = ctx.scale(300, 6000)
         if ctx.extended:
             n *= 4
